@@ -496,7 +496,11 @@ static void run_imp(const Case& c) {
         print_imp(a);
     } else if (model == "file") {
         // imp <id> file 0 ; extra = fmax ; ops = whitespace-separated tokens of the impedance file ("~" = line break)
-        char name[] = "/tmp/ivh_impXXXXXX";
+        // scratch file next to the FFT wisdom (XDG_DATA_HOME is set to /verif/.cache/xdg by the check)
+        const char* base = std::getenv("XDG_DATA_HOME");
+        std::string tmpl = std::string(base ? base : "/tmp") + "/ivh_impXXXXXX";
+        std::vector<char> namebuf(tmpl.begin(), tmpl.end()); namebuf.push_back('\0');
+        char* name = namebuf.data();
         int fd = mkstemp(name);
         std::string txt;
         for (const auto& w : c.words) { if (w == "~") txt += "\n"; else { txt += w; txt += ' '; } }
